@@ -69,7 +69,7 @@ def seam_modules():
 
 
 def run_step(root, do_step, step, fault=None, config_path=None, pool_seed=0, timeout=120.0,
-             pre=None):
+             pre=None, read_events=False):
     """Execute do_step(step, root) in a forked child under the seam.
     Returns {'outcome': ..., 'events': [...], 'fired': {...}|None, 'exit': code}.
     outcome: {'ok': result} | {'exc': type, 'msg': str} | None when the process was killed."""
@@ -88,6 +88,7 @@ def run_step(root, do_step, step, fault=None, config_path=None, pool_seed=0, tim
             report({"fired": info, "events": SIM.events, "killed": True})
 
         SIM.reset(root=root, fault=fault, on_kill=on_kill)
+        SIM.read_events = read_events
         SIM.active = True
         try:
             try:
@@ -118,7 +119,7 @@ def run_step(root, do_step, step, fault=None, config_path=None, pool_seed=0, tim
     return out
 
 
-def dry_run(root, do_step, step, config_path=None, pool_seed=0, pre=None, copy_root=None):
+def dry_run(root, do_step, step, config_path=None, pool_seed=0, pre=None, copy_root=None, read_events=False):
     """Fault-free execution of the step on a copy of the world; returns its result dict."""
     root = Path(root)
     copy = Path(copy_root) if copy_root else root.parent / (root.name + ".dry")
@@ -126,7 +127,7 @@ def dry_run(root, do_step, step, config_path=None, pool_seed=0, pre=None, copy_r
         shutil.rmtree(copy)
     shutil.copytree(root, copy, symlinks=True)
     try:
-        return run_step(copy, do_step, step, None, config_path, pool_seed, pre=pre)
+        return run_step(copy, do_step, step, None, config_path, pool_seed, pre=pre, read_events=read_events)
     finally:
         shutil.rmtree(copy, ignore_errors=True)
 
